@@ -11,6 +11,10 @@ format_date(date, FMT) / format_datetime(date, FMT) calls in random byte order, 
 --date-format / --datetime-format / --input-date-format and with --dow, -M, --by-payee (which print
 dates themselves through the same formatter cache); the oracle reads every field back in the
 format it was requested in (in the model a formatter is a function of the format string alone).
+Input formats with month and weekday NAMES (%b %B %h %a %A; g_names): the text the format prints, other
+letter cases, the other name form, the weekday name of another day and a month name against the month
+number (both must be rejected), impossible days by name, damaged names, trailing text; formats that begin
+with a name are read as auxiliary dates.
 Oracle: python's datetime (proleptic Gregorian) evaluates the property text on ledger's output:
 an intended valid date must be accepted, print as that very day with the calendar's weekday and
 day of the year; an impossible date or a date with trailing characters must be rejected; order
@@ -23,12 +27,13 @@ META = dict(
     id='C14',
     level='proof',
     technique='Coq proof (date reader/formatter model against the Gregorian calendar: round trips, soundness of acceptance, weekday, order) + differential correspondence of the extracted model against ledger, exhaustive over 1900..2199 in every accepted spelling',
-    level_text='Theorems in coq/Properties/Properties_C14.v state, for all dates of boost\'s range 1400..9999 and all strings, that the model of parse_date (reader list regenerated from times.cc, separator rewriting, glibc strptime for %Y %m %d %y, boost date construction, re-format-and-compare, year inference) accepts every accepted spelling of a valid date as exactly that day, accepts nothing that does not spell a valid date (month 13, day 32, 30 February, 29 February of a non-leap year, trailing characters are errors), that formatting a read date gives the same day, that weekday and order are those of the Gregorian calendar, and that day number <-> civil date conversions are inverse bijections. The model is tied to the code by reading every day 1900-01-01..2199-12-31 in six spellings, every impossible month/day for leap, non-leap and century years, MM/DD under year directives and --now, range ends, malformed strings, random --input-date-format/--date-format pairs, and reports that ask for several different date formats in one run (2-7 per run, with --dow / -M / --by-payee) both in freshly built ledger and in the extracted model; the translator re-reads from times.cc that the formatter cache is keyed by the exact format string, and from textual.cc how a year directive and the end of an included file move the current date (year directives under several clocks, nested, closed, and across `include`d files are generated; the current date of every transaction comes from the model\'s epoch machine).',
-    level_note='Trusted: Coq kernel; extraction + OCaml driver and the python harness for the correspondence; glibc strptime/strftime modelled for the numeric directives (%Y %m %d %e %y %j %u %w, names %a %A %b %B in the C locale) and validated differentially; boost::gregorian date construction, day numbers and month arithmetic transcribed in Base/Calendar.v and proved equal to the era-based calendar. A year-less MM/DD later in the year than today is taken from the previous year (same month and day; 29 February then has no counterpart and is an error).',
+    level_text='Theorems in coq/Properties/Properties_C14.v state, for all dates of boost\'s range 1400..9999 and all strings, that the model of parse_date (reader list regenerated from times.cc, separator rewriting, glibc strptime for %Y %m %d %e %y and the names %b %B %h %a %A, boost date construction, re-format-and-compare, year inference) accepts every accepted spelling of a valid date as exactly that day, accepts nothing that does not spell a valid date (month 13, day 32, 30 February, 29 February of a non-leap year, trailing characters are errors), that formatting a read date gives the same day, that weekday and order are those of the Gregorian calendar, and that day number <-> civil date conversions are inverse bijections. The model is tied to the code by reading every day 1900-01-01..2199-12-31 in six spellings, every impossible month/day for leap, non-leap and century years, MM/DD under year directives and --now, range ends, malformed strings, random --input-date-format/--date-format pairs, input formats with month and weekday names (exact text, other case, other form, wrong weekday, contradicting month, impossible day, damaged, trailing), and reports that ask for several different date formats in one run (2-7 per run, with --dow / -M / --by-payee) both in freshly built ledger and in the extracted model; the translator re-reads from times.cc that the formatter cache is keyed by the exact format string, the presets of the struct tm given to strptime and the byte the re-format-and-compare loop may skip (both used by the model), and from textual.cc how a year directive and the end of an included file move the current date (year directives under several clocks, nested, closed, and across `include`d files are generated; the current date of every transaction comes from the model\'s epoch machine).',
+    level_note='Trusted: Coq kernel; extraction + OCaml driver and the python harness for the correspondence; glibc strptime/strftime modelled for the numeric directives (%Y %m %d %e %y %j %u %w, names %a %A %b %B %h in the C locale, read case-insensitively in either form) and validated differentially; boost::gregorian date construction, day numbers and month arithmetic transcribed in Base/Calendar.v and proved equal to the era-based calendar. A year-less MM/DD later in the year than today is taken from the previous year (same month and day; 29 February then has no counterpart and is an error).',
     design_ref='DESIGN.md section 7 C14, section 6.5',
     assumptions=['TZ=UTC, LC_ALL=C (weekday and month names)',
                  'date strings contain no white space when written as transaction dates (the journal tokenizer cuts there)',
-                 'format strings use only the modelled directives and stay below 127 bytes when expanded'],
+                 'format strings use only the modelled directives and stay below 127 bytes when expanded',
+                 'an abbreviated name directive (%b %h %a) of an input format is not directly followed by literal letters completing the full name (finding F-C14-N1)'],
 )
 
 OUTF = '%Y-%m-%d %a %u %w %j %y %e %b %A %B'
@@ -790,7 +795,7 @@ def g_custom(ctx, rng, npairs, per):
 # ------------------------------------------------------------------------------------------ names in input formats
 NAME_FMTS_DIGIT_FIRST = ['%d-%b-%Y', '%d%b%Y', '%Y-%b-%d', '%d.%B.%Y', '%Y/%m/%d,%a', '%Y/%m/%d(%A)', '%d_%h_%Y', '%Y%b%d', '%d-%b-%y',
                          '%d/%b', '%Y-%B', '%m/%d/%Y_%a', '%d%B%Y%A', '%Y.%m.%d.%a.%b', '%d%bch%Y', '%d%be%Y', '%Y%m%d%aday', '%d%buary%Y', '%Y%a%m%d', '%d%B,%Y', '%d%b%a%Y',
-                         '%d-%B-%y', '%Y%B%d', '%d%Bx%Y', '%Y/%b/%d', '%d%A%b%Y']
+                         '%d-%B-%y', '%Y%B%d', '%d%Bx%Y', '%Y/%b/%d', '%d%A%b%Y', '%Y.%m.%d.%b', '%d/%m(%B)%Y', '%m-%d-%Y,%h']
 NAME_FMTS_NAME_FIRST = ['%a,%Y/%m/%d', '%A,%d.%m.%Y', '%b-%d-%Y', '%B/%d/%Y', '%a,%d%b%Y', '%A%B%d,%Y', '%b%d', '%h.%d.%Y', '%a%d%m%Y', '%b%Y', '%A%d%B%y']
 
 
